@@ -20,6 +20,7 @@ T2: the REAL LogFileDateSinceSeeker.find_token / find_token_reverse /
 """
 import io
 import os
+import re
 import time
 
 import vlib
@@ -27,16 +28,22 @@ import vlib
 PROPS = ['Props/C11.v', 'Props/C11src.v']
 
 LF = 10
+# seconds with one or two digits: a timestamp cut short by one byte is a
+# different timestamp
+HIST_PATTERN = (r'^(?P<year>\d{4})-(?P<month>\d{2})-(?P<day>\d{2}) '
+                r'(?P<hours>\d{2}):(?P<minutes>\d{2}):(?P<seconds>\d{1,2})')
 PATCH_H = [1, 2, 3, 4, 7, 8, 16]
 PATCH_A = [1, 2, 3, 8]
 
 
 # ------------------------------------------------------------ implementation
 class _DummyConstraint:
+    """ hands back exactly what LogLine.date passed to the matcher, so that
+    the bytes read for the timestamp can be compared """
     since_date = None
 
-    def extracted_datetime(self, line):     # never used for a decision here
-        return None
+    def extracted_datetime(self, line):
+        return ('read', bytes(line))
 
 
 class Patched:
@@ -106,9 +113,8 @@ def impl_lookup(content, offs, H, A, W, window=True, toks=True, tmpdir=None):
                     line = [_st(ln.start_lf), _st(ln.end_lf),
                             ln.start_offset, ln.end_offset]
                     if window:
-                        # pylint: disable=protected-access
-                        line.append(list(ln._read_line(
-                            ln.MAX_DATETIME_READ_BYTES)))
+                        # the bytes LogLine.date hands to the matcher
+                        line.append(list(ln.date[1]))
                 except MaxSearchableLineLengthReached:
                     line = [0]
                 except AssertionError:
@@ -524,11 +530,33 @@ def history_runs(chk, n):
     class TS(K.TimestampMatcherBase):
         @property
         def patterns(self):
-            return [r'^(?P<year>\d{4})-(?P<month>\d{2})-(?P<day>\d{2}) '
-                    r'(?P<hours>\d{2}):(?P<minutes>\d{2}):(?P<seconds>\d{2})']
+            return [HIST_PATTERN]
 
     class NamedBytesIO(io.BytesIO):
         name = 'c11-history'
+
+    def ref_date(window):
+        """ the timestamp of a line = the matcher on the <= W bytes at its
+        first byte, by plain re + datetime """
+        m = re.match(HIST_PATTERN, window.decode('utf-8',
+                                                 errors='backslashreplace'))
+        if not m:
+            return None
+        try:
+            return datetime.datetime(*(int(m.group(g)) for g in (
+                'year', 'month', 'day', 'hours', 'minutes', 'seconds')))
+        except ValueError:
+            return None
+
+    def ref_getitem(c, o, W):
+        """ date of the nearest dated line at or before the line of o, else
+        of the first dated line after it (no fallback limit) """
+        starts = [0] + [i + 1 for i, b in enumerate(c) if b == LF]
+        dates = [(s, ref_date(c[s:s + W])) for s in starts]
+        ls = ref_line(c, o)[0]
+        before = [d for s, d in dates if s <= ls and d is not None]
+        after = [d for s, d in dates if s > ls and d is not None]
+        return before[-1] if before else (after[0] if after else None)
 
     rng = chk.rng
     base = datetime.datetime(2022, 1, 1)
@@ -546,8 +574,9 @@ def history_runs(chk, n):
             if r < 0.4:
                 t += rng.choice([0, 1, 60])
                 out += (base + datetime.timedelta(seconds=t)).strftime(
-                    '%Y-%m-%d %H:%M:%S').encode() + rng.choice([b'', b' A',
-                                                                b' msg'])
+                    '%Y-%m-%d %H:%M:%S').encode() + rng.choice(
+                        [b'', b'', b' A', b' msg', b' ' + b'm' * 43,
+                         b' ' + b'm' * 44, b' ' + b'm' * 45])
             elif r < 0.7:
                 out += b''                         # empty line
             else:
@@ -577,12 +606,25 @@ def history_runs(chk, n):
                 for kind, o in ops:
                     if kind == 'getitem':
                         try:
-                            seeker[o]       # pylint: disable=pointless-statement
-                        except (K.TooManyLinesWithoutDate,
-                                K.MaxSearchableLineLengthReached,
+                            got = seeker[o]
+                        except K.TooManyLinesWithoutDate:
+                            got = None
+                        except (K.MaxSearchableLineLengthReached,
                                 AssertionError):
-                            pass
+                            got = 'error'
                         trace.append(['getitem', o])
+                        if L == 500:
+                            chk.dist('history_date_lookups')
+                            want = ref_getitem(c, o, W)
+                            if got != want:
+                                chk.violation(
+                                    'timestamp-lookup-wrong-date', {
+                                        'content': list(c), 'offset': o,
+                                        'SEEK_HORIZON': H,
+                                        'impl_seeker_getitem': str(got),
+                                        'timestamp_of_nearest_dated_line':
+                                            str(want)})
+                                break
                         continue
                     chk.coverage['evaluations'] += 1
                     chk.dist('history_lookups')
@@ -592,6 +634,16 @@ def history_runs(chk, n):
                             got = [_st(ln.start_lf), _st(ln.end_lf),
                                    ln.start_offset, ln.end_offset,
                                    list(ln._read_line(W))]  # noqa, pylint: disable=protected-access
+                            dgot, dwant = ln.date, ref_date(
+                                c[ln.start_offset:ln.start_offset + W])
+                            if dgot != dwant:
+                                chk.violation(
+                                    'line-timestamp-not-the-one-at-its-start',
+                                    {'content': list(c), 'offset': o,
+                                     'line_start': ln.start_offset,
+                                     'impl_date': str(dgot),
+                                     'timestamp_at_line_start': str(dwant)})
+                                break
                         except K.MaxSearchableLineLengthReached:
                             got = [0]
                         except AssertionError:
